@@ -50,7 +50,7 @@ TRUSTED_BASE = [
 ASSUMPTIONS = [
     "documents are produced by a conforming writer: passwords have a key-derivation form (Latin-1 bytes for R<=4, "
     "SASLprep-valid for R6), 40 <= Length <= 128 and a multiple of 8, AES data is IV + whole PKCS#7-padded blocks, "
-    "StmF = StrF (pdfminer documents this limit by raising PDFEncryptionError otherwise), P != 0",
+    "StmF = StrF (pdfminer documents this limit by raising PDFEncryptionError otherwise)",
     "wrong passwords are rejected up to collisions of the validation hash (cryptographic assumption; the Lean "
     "statement C10_rejects_partial carries it as an explicit hypothesis)",
     "MD5/SHA-2/AES are the functions hashlib/cryptography compute; AES-CBC decrypt inverts encrypt for equal key/IV",
@@ -71,6 +71,8 @@ STATEMENT_STATUS: Dict[str, str] = {
     "r56_user_accepts / r56_owner_accepts / r56_authenticate_owner / r56_authenticate_user_same_pw": "proved",
     "r56_authenticate_user_partial": "partial: exactly one assumption left - up != op -> H(up, ov, U) != H(op, ov, U) "
                                      "(the owner validation hash of this document does not collide between its two passwords)",
+    "r6_password_is_algorithm_2B": "proved: _r6_password (while condition, repeat count translated from the source on every "
+                                   "run; _bytes_mod_3 = big-endian integer mod 3) = ISO 32000-2 Algorithm 2.B for 8-byte salts",
     "r6_fuel_suffices": "proved unconditionally (the loop of _r6_password ends by round 288)",
     "C10_roundtrip_bytes / C10_roundtrip": "proved for RC4/AESV2/AESV3/Identity, whole objects, every objid/genno/IV, padding "
                                            "removed; encryptBytes_ne_nil removes the former non-emptiness hypothesis",
@@ -259,6 +261,8 @@ def gen_cfg(rng, force: Optional[str] = None) -> R.Cfg:
     P = (0xFFFFF0C0 | perms) - (1 << 32)
     if rng.random() < 0.15:
         P = rng.randrange(1, 1 << 32) - (1 << 32) if rng.random() < 0.5 else rng.randrange(1, 1 << 31)
+        if rng.random() < 0.15:
+            P = 0
     idr = rng.random()
     id0 = bytes(rng.randrange(256) for _ in range(16 if idr < 0.8 else rng.choice([0, 1, 7, 32])))
     have_id = rng.random() < 0.93
@@ -826,6 +830,39 @@ def run_aes_keylen(ctx: C.Ctx) -> None:
                                got.hex()[:80], {"kind": "aes-objkey", "keylen": L}))
 
 
+def check_r6_hash(ctx: C.Ctx, pw: bytes, salt: bytes, vector: Optional[bytes], r: int, branch: str) -> None:
+    """_r5_password / _r6_password of the V5 handler against the reference (SHA-256 / Algorithm 2.B)."""
+    from pdfminer.pdfdocument import PDFStandardSecurityHandlerV5
+    h = object.__new__(PDFStandardSecurityHandlerV5)
+    h.r = r
+    exp = (R.hash_r5 if r == 5 else R.hash_2b)(pw, salt[:8] if r == 6 else salt, vector or b"")
+    try:
+        got = h._password_hash(pw, salt, vector)
+    except Exception as e:  # noqa: BLE001
+        got = ("EXC:" + type(e).__name__).encode()
+    ctx.case(("pwhash", r, pw, salt, vector), True, branch=branch)
+    if got != exp:
+        ctx.fail(C.Failure("the revision %d password hash differs from %s" % (r, "SHA-256(pw+salt+udata)" if r == 5 else "ISO 32000-2 Algorithm 2.B"),
+                           {"pwhash": {"r": r, "pw": pw.hex(), "salt": salt.hex(),
+                                       "vector": None if vector is None else vector.hex()}},
+                           exp.hex(), got.hex()[:64], {"kind": "r6-hash", "R": r}))
+
+
+def run_r6_hashes(ctx: C.Ctx) -> None:
+    """Many (password, salt, vector) triples straight through `_password_hash`: the data-dependent exit of
+    Algorithm 2.B (last byte of E vs round number) is hit in every possible way, which whole documents
+    (a few hashes each) do too rarely."""
+    rng = ctx.rng
+    for i in range(ctx.n(500, 12000)):
+        if not ctx.time_left():
+            break
+        pw = bytes(rng.randrange(256) for _ in range(rng.choice([0, 1, 3, 8, 8, 16, 32, 127])))
+        salt = bytes(rng.randrange(256) for _ in range(8))
+        vector = None if i % 2 == 0 else bytes(rng.randrange(256) for _ in range(48))
+        r = 5 if i % 10 == 9 else 6
+        check_r6_hash(ctx, pw, salt, vector, r, "pwhash:R%d:%s" % (r, "user" if vector is None else "owner"))
+
+
 def hashlib_md5(b: bytes) -> bytes:
     import hashlib
     return hashlib.md5(b).digest()
@@ -846,6 +883,11 @@ def replay(ctx: C.Ctx, doc: Dict[str, Any], from_corpus: bool = False) -> None:
         case = Case.from_json(inp)
         run_case(ctx, case, True, "corpus" if from_corpus else "replay", shrink=False)
         model_check(ctx, [case], with_rc4=False)
+    elif "pwhash" in inp:
+        j = inp["pwhash"]
+        check_r6_hash(ctx, bytes.fromhex(j["pw"]), bytes.fromhex(j["salt"]),
+                      None if j["vector"] is None else bytes.fromhex(j["vector"]), j["r"],
+                      "corpus" if from_corpus else "replay")
     elif "sample" in inp:
         run_samples(ctx)
 
@@ -863,6 +905,7 @@ def run(ctx: C.Ctx) -> None:
     run_corpus(ctx)
     run_samples(ctx)
     run_aes_keylen(ctx)
+    run_r6_hashes(ctx)
     kinds = ["r2", "r3", "r4rc4", "r4aes", "r4id", "r5", "r6"]
     cases: List[Case] = []
     n = ctx.n(120, 4000)
@@ -872,7 +915,7 @@ def run(ctx: C.Ctx) -> None:
             break
         case = gen_case(rng, kinds[i] if i < len(kinds) else None)
         run_case(ctx, case, do_text=(i % 4 == 0), branch="doc")
-        if i < ctx.n(24, 200):
+        if i < min(ctx.n(24, 200), 48 if ctx.tier == "quick" else 400):
             cases.append(case)
     for i in range(ctx.n(len(WILD), 10 * len(WILD))):
         w = gen_wild_case(rng, WILD[i % len(WILD)])
